@@ -1,3 +1,5 @@
 import TxV.Util.AuditCmd
 import TxV.Props.C14
+import TxV.Props.C14b
 #txv_audit TxV.Props.C14
+#txv_audit TxV.Props.C14b
